@@ -112,15 +112,18 @@ inductive Item where
   | files (l : List FileV)
 deriving Repr
 
-/-- `Multipart::next`: pops from the back; consecutive file parts of one name are grouped; an empty file input is no file -/
+/-- what a browser sends for a file input with no file chosen: no file name, no content -/
+def unselected (f : FileV) : Bool := f.filename.isEmpty && f.content.isEmpty
+
+/-- `Multipart::next`: pops from the back; consecutive file parts of one name are grouped; an unselected file input is no file, wherever it stands
+    among the files of its name (since fix fix 6d7aeee; before it only a group that BEGAN with one, from the back, was empty, and `[file, unselected]` was refused) -/
 def next (ps : List Part) : Option (Bytes × Item × List Part) :=
   match ps.reverse with
   | [] => none
   | .text n t :: rest => some (n, .text t, rest.reverse)
   | .file n f :: rest =>
-    if f.filename.isEmpty && f.content.isEmpty then some (n, .files [], rest.reverse) else
     let same := rest.takeWhile fun p => match p with | .file n' _ => n' == n | _ => false
-    let fs := f :: same.filterMap fun p => match p with | .file _ f' => some f' | _ => none
+    let fs := (f :: same.filterMap fun p => match p with | .file _ f' => some f' | _ => none).filter fun f => !unselected f
     some (n, .files fs, (rest.drop same.length).reverse)
 
 inductive FTy where | text | optText | file | optFile | files
